@@ -15,6 +15,8 @@ the instance name alone does not.
 import Hdl21Model.Order
 import Mathlib.Data.Prod.Lex
 import Mathlib.Data.String.Basic
+import Mathlib.Data.List.Perm.Basic
+import Hdl21Model.Lemmas.Dfs
 namespace Hdl21.Props.C12
 open Hdl21.Order
 
@@ -88,5 +90,46 @@ theorem instance_name_alone_is_not_a_key :
     ∃ (l l' : List PRef), l.Perm l' ∧
       ordered (fun p : PRef => p.inst) l ≠ ordered (fun p : PRef => p.inst) l' :=
   ⟨[⟨0, "p"⟩, ⟨0, "q"⟩], [⟨0, "q"⟩, ⟨0, "p"⟩], List.Perm.swap _ _ _, by decide⟩
+
+end Hdl21.Props.C12
+
+/-! ## group discovery (`ResolvePortRefs.follow`) under any iteration order of the back-reference sets -/
+namespace Hdl21.Props.C12
+open Hdl21.Order Hdl21.Dfs
+
+variable {ν κ : Type} [DecidableEq ν] [LinearOrder κ]
+
+/-- **The group `follow` discovers is the same set whatever order the sets of connected ports are iterated in.**
+    `nbrs` and `nbrs'` enumerate, for every port reference, the same neighbours (its connection if that is a reference, and
+    the references connected to it — `_connected_ports`, a Python `set`) in two arbitrary orders, as two processes would.
+    The depth-first searches visit the nodes in different orders, but whenever both answer they have collected the same
+    references, each once. -/
+theorem group_members_order_independent (nbrs nbrs' : ν → List ν) (hperm : ∀ a, (nbrs a).Perm (nbrs' a))
+    (fuel fuel' : Nat) (p : ν) (g g' : List ν)
+    (h : dfs nbrs fuel p [] = some g) (h' : dfs nbrs' fuel' p [] = some g') : g.Perm g' := by
+  have hn : g.Nodup := dfs_nodup nbrs fuel p [] g h List.nodup_nil
+  have hn' : g'.Nodup := dfs_nodup nbrs' fuel' p [] g' h' List.nodup_nil
+  rw [List.perm_ext_iff_of_nodup hn hn']
+  intro x
+  rw [dfs_component nbrs fuel p g h x, dfs_component nbrs' fuel' p g' h' x]
+  exact ⟨Reach.congr (fun a y hy => (hperm a).mem_iff.1 hy), Reach.congr (fun a y hy => (hperm a).mem_iff.2 hy)⟩
+
+/-- Hence everything a pass computes from a group *after ordering it by a key that identifies its members* — which
+    reference gives the implicit signal its name, the order in which the group's ports are re-connected — is the same in
+    every process, even where the search itself walked the sets in another order. -/
+theorem handled_group_order_independent {β : Type} (key : ν → κ) (f : List ν → β)
+    (nbrs nbrs' : ν → List ν) (hperm : ∀ a, (nbrs a).Perm (nbrs' a))
+    (fuel fuel' : Nat) (p : ν) (g g' : List ν)
+    (h : dfs nbrs fuel p [] = some g) (h' : dfs nbrs' fuel' p [] = some g')
+    (hinj : ∀ a ∈ g, ∀ b ∈ g, key a = key b → a = b) :
+    f (ordered key g) = f (ordered key g') :=
+  computed_from_ordered key f g g' (group_members_order_independent nbrs nbrs' hperm fuel fuel' p g g' h h') hinj
+
+/-- Non-vacuity: a three-node cycle searched with the neighbour lists in two different orders — different discovery orders,
+    the same group. -/
+example :
+    let nb  : Nat → List Nat := fun a => if a = 0 then [1, 2] else if a = 1 then [2, 0] else [0, 1]
+    let nb' : Nat → List Nat := fun a => if a = 0 then [2, 1] else if a = 1 then [0, 2] else [1, 0]
+    dfs nb 5 0 [] = some [0, 1, 2] ∧ dfs nb' 5 0 [] = some [0, 2, 1] := by decide
 
 end Hdl21.Props.C12
